@@ -158,7 +158,7 @@ theorem create_prot {s : State} {n : Name} (h : Protected s n) (m : Name) (size 
         obtain ⟨f, hf, _⟩ := h
         simp [KV.has, hf] at hnf
       obtain ⟨f, hf, hp⟩ := h
-      exact ⟨f, by simpa [KV.get_put_ne _ _ hne] using hf, hp⟩
+      exact ⟨f, by simpa [createInsert, KV.get_put_ne _ _ hne] using hf, hp⟩
 
 theorem ite_prot {c : Prop} [Decidable c] {a b : State} {n : Name} (ha : Protected a n) (hb : Protected b n) :
     Protected (if c then a else b) n := by split <;> assumption
